@@ -3,6 +3,7 @@ package main
 // Translation of contract expressions (Go expression syntax) to SMT terms.
 
 import (
+	"sort"
 	"bytes"
 	"fmt"
 	"go/ast"
@@ -105,6 +106,32 @@ func (ex *Exec) lookupLocal(st *State, name string) (SV, bool) {
 	}
 	if found != nil {
 		return st.cells[found], true
+	}
+	// renamed local: fall back to "the k-th local of that type" recorded on the
+	// unchanged tree (contracts/locals.json), so that a pure rename does not
+	// by itself break a proof
+	if lt, ok := ex.p.localsTable[ex.name][name]; ok {
+		k := 0
+		var allocs []*ssa.Alloc
+		for _, b := range ex.fn.Blocks {
+			for _, in := range b.Instrs {
+				if a, ok := in.(*ssa.Alloc); ok && a.Comment != "" && a.Comment != "defer$stack" {
+					allocs = append(allocs, a)
+				}
+			}
+		}
+		sort.Slice(allocs, func(i, j int) bool { return allocs[i].Pos() < allocs[j].Pos() })
+		for _, a := range allocs {
+			if a.Type().String() == lt.Type {
+				k++
+				if k == lt.Ordinal {
+					if sv, ok := st.cells[a]; ok {
+						// only if the recorded name is really gone (not shadowed away)
+						return sv, true
+					}
+				}
+			}
+		}
 	}
 	return SV{}, false
 }
